@@ -730,6 +730,8 @@ Section Writer.
                   accepts_deferred (after st)
       | None => true
       end
+    | Close cat info =>
+      caps_ok 0 cat && match info with Some i => caps_ok 0 i | None => true end
     | _ => true
     end.
 
@@ -747,12 +749,15 @@ Section Writer.
      streams, everything WriteCompressed does after it has allocated the stream's number. *)
   Definition is_ok {A} (r : res A) : bool := match r with Ok _ => true | Err _ => false end.
 
-  Fixpoint first_failure_is_format (rs : list (N * N)) (os : list pobj) (st : state) : bool :=
+  (* without object streams the members are Put one by one: the first one refused cleanly leaves
+     everything as it was; a format failure, or a refusal of a later member (the earlier ones are in
+     the file), fails the writer *)
+  Fixpoint fallback_dirty (first : bool) (rs : list (N * N)) (os : list pobj) (st : state) : bool :=
     match rs, os with
     | (n, g) :: rs', o :: os' =>
       match put n g o false st with
-      | Ok st1 => if accepts_pobj n g o then first_failure_is_format rs' os' st1 else true
-      | Err _ => false
+      | Ok st1 => if accepts_pobj n g o then fallback_dirty false rs' os' st1 else true
+      | Err _ => negb first
       end
     | _, _ => false
     end.
@@ -774,7 +779,7 @@ Section Writer.
       | None, _ :: _ =>
         check_compressed rs os &&
         (if use_objstm c then negb (is_ok (step st o))
-         else first_failure_is_format rs os st)
+         else fallback_dirty true rs os st)
       | _, _ => false
       end
     | _ => false
